@@ -18,7 +18,7 @@ from fractions import Fraction
 from engine import Prop, fbits, bitsf, ratstr
 
 INF = float("inf")
-FINDING_STOPS_BOUNDARY = "stops-boundary-exclusive"
+FINDING_MINCIRCLE = "stops-mincircle-none"
 
 
 # ------------------------------------------------------------------------------------------------
@@ -203,14 +203,16 @@ class P(Prop):
         ("TracklibVerif.Props.C12", "TV.C12.segmentation_errors", "outside the domain: an unaccepted call protocol raises TypeError (size >= 3); size 2 gives [0,0], size 1 IndexError, size 0 ValueError"),
         ("TracklibVerif.Props.C12", "TV.C12.simplification_selects", "T3: optimalSimplification keeps, in order, exactly the observations at the indices of optimalSegmentation for the same parameter AND direction (forwarded), an optimal selection"),
         ("TracklibVerif.Props.C12", "TV.C12.simplify_modes", "simplify: FREE = optimalSimplification(cost, None, MINIMIZE), FREE_MAXIMIZE = (cost, None, MAXIMIZE), modes 4-6 = (built-in 4-parameter cost, tolerance, MINIMIZE)"),
-        ("TracklibVerif.Props.C12", "TV.C12.stops_matrix", "findStopsGlobal's row loops with break + C + C.T put stopsReward(a,b) at a<b: (b-a)^2 iff no earlier end point is far, NOT dt <= duration, and the circle has 2r < diameter; symmetric"),
-        ("TracklibVerif.Props.C12", "TV.C12.stops_optimal", "T3: the segmentation computed inside findStopsGlobal maximises the summed stopsReward over all chains 0..size-2"),
+        ("TracklibVerif.Props.C12", "TV.C12.stops_matrix", "the row loops of stop detection with break + C + C.T put stopsReward(a,b) at a<b: (b-a)^2 iff the break test holds for no earlier end point, the continue test does not hold and the size is computed and admitted; symmetric"),
+        ("TracklibVerif.Props.C12", "TV.C12.stops_documented", "findStopsGlobal's tests (026cb79): the reward of (a,b) is (b-a)^2 exactly when every end point is within diameter of p_a, duration <= t(p_{b-1}) - t(p_a) and minCircle gives a circle with 2r <= diameter (inclusive, as documented); 0 otherwise"),
+        ("TracklibVerif.Props.C12", "TV.C12.stops_optimal", "T3: the segmentation computed inside findStopsGlobal maximises the summed stopsReward (= the documented criterion, stops_documented) over all chains 0..size-2"),
     ]
     partial = []
     open_statements = [
         "IEEE doubles: optimal_bracketed / optimal_rounded are proved for an abstract rounded addition (monotone, relative error u, no associativity); that binary64 addition satisfies these hypotheses (no NaN, no overflow, u = 2^-53) is assumed, not proved in Lean (Float is opaque), and is what the transfer check on doubles samples, with the same tolerance shape and the generous constant 1e-9",
-        "findStopsGlobal: geometry and clock (distance2DTo, minCircle, timestamps) are parameters of the model (predicate tables); the check computes them with exact rational geometry, except the entries where tracklib's minCircle returns None (recorded from the run)",
-        "findStopsGlobal optimises stopsReward, which differs from the criterion documented in its source comment / docstring on the two boundaries (a segment lasting exactly `duration`, a circle of diameter exactly `diameter`: reward 0 in the code, a stop according to the documentation and to the function's own final filter); the oracle demands optimality for the documented criterion only where both agree, unless known_findings.json lists class '%s'" % FINDING_STOPS_BOUNDARY,
+        "findStopsGlobal: distances, durations and circle diameters are parameters of the model (it applies the three threshold tests itself, stopPredGlobal); the check computes them with exact rational geometry, except the entries where tracklib's minCircle returns None (recorded from the run) and circles through >= 3 distinct fixes whose exact diameter equals the limit (doubles decide: read off the run)",
+        "findStopsGlobal: when tracklib's minCircle returns None for a segment (three collinear boundary points met in some random orders of Welzl's algorithm) the code writes reward 0 where the documented criterion rewards the segment; the model has this case (`small = none`), the oracle demands the optimum of the DOCUMENTED criterion and reports the loss (class '%s')" % FINDING_MINCIRCLE,
+        "findStopsGlobalForRTK (outside the property's anchors): its tests are still exclusive (`<= duration`, `< std_max`) and its source comment documents a factor 0.33 under the root that the code does not have; only the delegation and the correspondence of its matrix construction are checked",
         "simplify's built-in cost functions (modes 4-6: minimum bounding rectangle geometry) are a parameter of the model; the check evaluates the module's own functions with the requested tolerance",
     ]
     modelled = ("segmentation.optimalPartition (N = rows-1, D/M tables filled by increasing diagonals, both direction tests as written), "
@@ -249,14 +251,6 @@ class P(Prop):
         self.MODES = {"min": self.S.MODE_SEGMENTATION_MINIMIZE, "max": self.S.MODE_SEGMENTATION_MAXIMIZE}
         self.BUILTIN = {4: getattr(self.Z, "__cost_largest_deviation"), 5: getattr(self.Z, "__cost_mbr_ratio"),
                         6: getattr(self.Z, "__cost_largest_deviation_strict")}
-        # the documented (inclusive) boundaries of stop detection are demanded only once the discrepancy is a listed finding
-        self.doc_boundary = False
-        try:
-            with open(os.path.join(os.path.dirname(__file__), "..", "..", "known_findings.json")) as fh:
-                self.doc_boundary = any(e.get("property") == "C12" and e.get("status") == "finding"
-                                        and e.get("class") == FINDING_STOPS_BOUNDARY for e in json.load(fh).get("entries", []))
-        except Exception:
-            pass
         self._geo = {}
         self._sb = {}
         self._alive = []
@@ -477,8 +471,22 @@ class P(Prop):
                 x += rng.randrange(10, 60); y += rng.randrange(-30, 30)
             t += rng.choice([1, 5, 10, 30])
             pts.append([x, y, t])
-        return {"kind": "stops", "pts": pts, "diameter": rng.choice([5, 10, 20] + ([2.5, 7.25] if dyadic else [])),
-                "duration": rng.choice([0, 5, 10, 30] + ([7.5, 12.5] if dyadic else []))}
+        c = {"kind": "stops", "pts": pts, "diameter": rng.choice([5, 10, 20] + ([2.5, 7.25] if dyadic else [])),
+             "duration": rng.choice([0, 5, 10, 30] + ([7.5, 12.5] if dyadic else []))}
+        # exact boundaries: the minimal duration is the duration of a group of the track, the maximal diameter the distance of two
+        # of its fixes (when that distance is a dyadic number)
+        if rng.random() < 0.4:
+            i = rng.randrange(0, n - 1); e = rng.randrange(i + 1, min(n, i + 5))
+            c["duration"] = pts[e][2] - pts[i][2]
+        if rng.random() < 0.4:
+            for _ in range(8):
+                i = rng.randrange(0, n - 1); e = rng.randrange(i + 1, min(n, i + 4))
+                q = Fraction(pts[e][0] - pts[i][0]) ** 2 + Fraction(pts[e][1] - pts[i][1]) ** 2
+                r = Fraction(math.isqrt(q.numerator), math.isqrt(q.denominator))
+                if q > 0 and r * r == q and q < 900:
+                    c["diameter"] = float(r) if r.denominator != 1 else int(r)
+                    break
+        return c
 
     def rand_rtk(self, rng):
         n = rng.randrange(4, 12)
@@ -523,7 +531,7 @@ class P(Prop):
         if k == "stops":
             g = self.geometry(case)
             t["criterion"] = "rtk variant (delegation only)" if case.get("rtk") else (
-                "documented = coded" if g["Rdoc"] == g["Rcode"] else "documented != coded (boundary tie)")
+                "exact tie with a threshold" if any(v for r in g["tie"] for v in r) else "no tie")
         return t
 
     def nontrivial(self, case):
@@ -533,7 +541,7 @@ class P(Prop):
         if k in ("part", "partseq"):
             return len(case["C"]) - 1 >= 3 and not case.get("dom")
         if k == "stops":
-            return len(case["pts"]) >= 4 and any(v for r in self.geometry(case)["Rcode"] for v in r)
+            return len(case["pts"]) >= 4 and any(v for r in self.geometry(case)["R"] for v in r)
         if k == "fe":
             return len(case["A"]) - 1 >= 3 and self.fe_in_domain(case)
         if k == "feseq":
@@ -809,7 +817,7 @@ class P(Prop):
         # minCircle draws from the global `random`: make the run a function of the case
         import random as _random, zlib as _zlib
         state = _random.getstate()
-        _random.seed(_zlib.crc32(json.dumps(case, sort_keys=True).encode()))
+        _random.seed(case.get("rseed", _zlib.crc32(json.dumps(case, sort_keys=True).encode())))
         self.S.optimalPartition = spy
         self.S.minCircle = spy_mc
         try:
@@ -847,9 +855,11 @@ class P(Prop):
         ts = [p[2] for p in case["pts"]]
         n = len(pts)
         du = Fraction(case["duration"])
-        short = [[int(ts[e] - ts[i] <= du) for e in range(n)] for i in range(n)]
+        dur = [[Fraction(ts[e] - ts[i]) for e in range(n)] for i in range(n)]
+        num = None
         if case.get("rtk"):
-            # findStopsGlobalForRTK: same loops, `far` = distance > 3 std_max, `small` = sqrt(var_x + var_y + var_z) < std_max
+            # findStopsGlobalForRTK: same loops, `far` = distance > 3 std_max, `short` = dt <= duration,
+            # `small` = sqrt(var_x + var_y + var_z) < std_max
             sd = Fraction(case["std"])
 
             def var(i, e):
@@ -857,43 +867,41 @@ class P(Prop):
                 return sum(sum(p[a] * p[a] for p in pts[i:e + 1]) / m - (sum(p[a] for p in pts[i:e + 1]) / m) ** 2 for a in (0, 1))
             v = [[var(i, e) if e >= i else None for e in range(n)] for i in range(n)]
             far = [[int(d2(pts[i], pts[e]) > 9 * sd * sd) for e in range(n)] for i in range(n)]
+            short = [[int(dur[i][e] <= du) for e in range(n)] for i in range(n)]
             small = [[int(e >= i and v[i][e] < sd * sd) for e in range(n)] for i in range(n)]
-            tie = [[int(e >= i and (v[i][e] == sd * sd or ts[e] - ts[i] == du)) for e in range(n)] for i in range(n)]
             fuzzy = [[int(e >= i and v[i][e] == sd * sd) for e in range(n)] for i in range(n)]   # a double sqrt decides
+            tie = [[int(e >= i and (fuzzy[i][e] or dur[i][e] == du)) for e in range(n)] for i in range(n)]
         else:
+            # findStopsGlobal, documented criterion (the tests of the code since 026cb79): C_ij = 0 if the enclosing circle of
+            # p_i..p_{j-1} is > diameter, 0 if the duration is < duration, (j-i)^2 otherwise
             d = Fraction(case["diameter"])
             r2 = [[None] * n for _ in range(n)]
             for i in range(n):
                 for e in range(i, n):
                     r2[i][e] = mec_r2(pts[i:e + 1])
             far = [[int(d2(pts[i], pts[e]) > d * d) for e in range(n)] for i in range(n)]
-            small = [[int(e >= i and 4 * r2[i][e] < d * d) for e in range(n)] for i in range(n)]
-            tie = [[int(e >= i and (4 * r2[i][e] == d * d or ts[e] - ts[i] == du)) for e in range(n)] for i in range(n)]
-            fuzzy = [[0] * n for _ in range(n)]
-        # what the code writes (model's stopsReward): the row loop stops at the first far end point
-        Rcode = [[0] * n for _ in range(n)]
-        Rdoc = [[0] * n for _ in range(n)]
+            short = [[int(dur[i][e] < du) for e in range(n)] for i in range(n)]
+            small = [[int(e >= i and 4 * r2[i][e] <= d * d) for e in range(n)] for i in range(n)]
+            # a circle through three or more distinct fixes whose exact diameter IS the limit: the doubles of minCircle's
+            # circumcircle decide (two fixes exactly `diameter` apart are exact: radius = distance / 2)
+            fuzzy = [[int(e >= i and 4 * r2[i][e] == d * d and len(set(pts[i:e + 1])) >= 3) for e in range(n)] for i in range(n)]
+            tie = [[int(e >= i and (4 * r2[i][e] == d * d or dur[i][e] == du or d2(pts[i], pts[e]) == d * d)) for e in range(n)] for i in range(n)]
+            num = {"diam2": d * d, "duration": du, "dist2": [[Fraction(d2(pts[i], pts[e])) for e in range(n)] for i in range(n)],
+                   "dur": dur, "circ2": [[4 * r2[i][e] if e >= i else Fraction(0) for e in range(n)] for i in range(n)]}
+        # the reward (model's stopsReward): the row loop stops at the first far end point
+        R = [[0] * n for _ in range(n)]
         for i in range(max(n - 2, 0)):
             for j in range(i + 1, n - 1):
                 e = j - 1
                 if far[i][e]:
                     break
                 if small[i][e] and not short[i][e]:
-                    Rcode[i][j] = Rcode[j][i] = (j - i) ** 2
+                    R[i][j] = R[j][i] = (j - i) ** 2
         if case.get("rtk"):
-            # the documented criterion of the RTK variant (factor 0.33 under the root, no break) is not what is coded and is
-            # not part of this property: only the delegation is checked there
-            Rdoc = [list(r) for r in Rcode]
-            keep = [[int(e + 1 < n and Rcode[i][e + 1] != 0) for e in range(n)] for i in range(n)]
+            keep = [[int(e + 1 < n and R[i][e + 1] != 0) for e in range(n)] for i in range(n)]
         else:
-            # documented: 0 if the enclosing circle is > diameter, 0 if the duration is < duration, (j-i)^2 otherwise
-            for i in range(max(n - 2, 0)):
-                for j in range(i + 1, n - 1):
-                    e = j - 1
-                    if 4 * r2[i][e] <= d * d and ts[e] - ts[i] >= du:
-                        Rdoc[i][j] = Rdoc[j][i] = (j - i) ** 2
-            keep = [[int(e >= i and 4 * r2[i][e] <= d * d and ts[e] - ts[i] >= du) for e in range(n)] for i in range(n)]
-        g = {"far": far, "short": short, "small": small, "keep": keep, "tie": tie, "fuzzy": fuzzy, "Rcode": Rcode, "Rdoc": Rdoc}
+            keep = [[int(e >= i and 4 * r2[i][e] <= d * d and dur[i][e] >= du) for e in range(n)] for i in range(n)]
+        g = {"far": far, "short": short, "small": small, "keep": keep, "tie": tie, "fuzzy": fuzzy, "R": R, "num": num}
         if len(self._geo) > 4000:
             self._geo.clear()
         self._geo[key] = g
@@ -944,19 +952,25 @@ class P(Prop):
             g = self.geometry(case)
             cap = self.run_capture(case)
             small = [list(r) for r in g["small"]]
-            keep = g["keep"]
+            keep = [list(r) for r in g["keep"]]
             n = len(small)
+            have = "C" in cap and len(cap["C"]) == n
+            # where the exact value sits on the threshold and doubles decide (`fuzzy`), whether the size is admitted is geometry
+            # (a parameter of the model): read it off the run
+            adm = {(i, e): int(cap["C"][i][e + 1] != 0) for i in range(n) for e in range(i, n - 1) if g["fuzzy"][i][e]} if have else {}
+            for (i, e), a in adm.items():
+                small[i][e] = keep[i][e] = a
+            if case.get("rtk"):
+                return ["C12.stops q %s %s %s %s" % (self.btok(g["far"]), self.btok(g["short"]), self.btok(small), self.btok(keep))]
+            # findStopsGlobal: the model applies the three tests itself to exact squared lengths and durations
+            num = g["num"]
+            circ = [list(r) for r in num["circ2"]]
+            for (i, e), a in adm.items():
+                circ[i][e] = num["diam2"] if a else num["diam2"] + 1
             for (i, e) in (cap.get("none") or []):
-                small[i][e] = 2
-            if any(v for r in g["fuzzy"] for v in r) and "C" in cap and len(cap["C"]) == n:
-                # var == std_max^2 exactly: whether sqrt(var) < std_max holds in doubles is geometry (a parameter): read it off the run
-                keep = [list(r) for r in keep]
-                for i in range(n):
-                    for e in range(i, n - 1):
-                        if g["fuzzy"][i][e]:
-                            small[i][e] = int(cap["C"][i][e + 1] != 0)
-                            keep[i][e] = int(cap["C"][i][e + 1] != 0)
-            return ["C12.stops q %s %s %s %s" % (self.btok(g["far"]), self.btok(g["short"]), self.btok(small), self.btok(keep))]
+                circ[i][e] = Fraction(-1)
+            return ["C12.stopsg q %s %s %s %s %s %s" % (ratstr(num["diam2"]), ratstr(num["duration"]), self.mtok("q", num["dist2"]),
+                                                        self.mtok("q", num["dur"]), self.mtok("q", circ), self.btok(keep))]
 
     def run_capture(self, case):
         import engine
@@ -1049,7 +1063,7 @@ class P(Prop):
             if impl_out["idx"] == model_out["idx"]:
                 # the stops reported, except segments on the boundary of the final filter (float radius against diameter/2)
                 # and segments whose circle tracklib could not compute
-                skip = {(a, e) for a in range(len(g["tie"])) for e in range(len(g["tie"])) if g["tie"][a][e]}
+                skip = {(a, e) for a in range(len(g["fuzzy"])) for e in range(len(g["fuzzy"])) if g["fuzzy"][a][e]}
                 skip |= {tuple(x) for x in impl_out.get("none_after", [])}
                 a = [x for x in impl_out["stops"] if tuple(x) not in skip]
                 b = [x for x in model_out["stops"] if tuple(x) not in skip]
@@ -1140,42 +1154,45 @@ class P(Prop):
                 if any(Cx[a][b] != Cx[b][a] for a in range(len(Cx)) for b in range(len(Cx))):
                     return "findStopsGlobalForRTK passes an asymmetric matrix"
                 return oracle(Cx, len(Cx) - 1, True, out["idx"], 0, "summed reward")
-            # The reward recomputed from the track, cell by cell. Where the documentation leaves no doubt the cell must hold
-            # exactly that; on a boundary tie (segment lasting exactly `duration`, circle of diameter exactly `diameter`) the
-            # documented (inclusive) and the coded (exclusive) conventions are both accepted; a segment whose circle tracklib's
-            # minCircle could not compute (None) is worth 0 by the code's own convention (geometry is not this property).
-            R, D = g["Rcode"], g["Rdoc"]
+            # The documented reward recomputed from the track, cell by cell; the cell passed must hold exactly that, except
+            # (a) where doubles decide a circle whose exact diameter is the limit (`fuzzy`: both values accepted) and (b) where
+            # tracklib's minCircle returned None (the code then writes 0).
+            R = g["R"]
             none = {(i, e + 1) for (i, e) in out.get("none", [])}
             if len(out["C"]) != n or any(len(r) != n for r in out["C"]):
                 return "findStopsGlobal's reward matrix is not %d x %d" % (n, n)
-            Mx = [[Fraction(0)] * n for _ in range(n)]
+            Mx = [[Fraction(0)] * n for _ in range(n)]     # what the code was asked to maximise
+            Dx = [[Fraction(0)] * n for _ in range(n)]     # the documented criterion
             bad = []
             for a in range(n):
                 for b in range(n):
                     v = Fraction(out["C"][a][b])
                     lo, hi = min(a, b), max(a, b)
-                    if v == R[a][b] or v == D[a][b] or (v == 0 and (lo, hi) in none):
-                        Mx[a][b] = v
-                    else:
-                        bad.append((a, b, float(v), R[a][b]))
                     if v != Fraction(out["C"][b][a]):
                         return "findStopsGlobal passes an asymmetric matrix"
+                    Mx[a][b] = v
+                    Dx[a][b] = Fraction(R[a][b])
+                    if lo < hi and g["fuzzy"][lo][hi - 1] and v in (0, (hi - lo) ** 2):
+                        Dx[a][b] = v
+                    elif v == 0 and (lo, hi) in none:
+                        pass
+                    elif v != R[a][b]:
+                        bad.append((a, b, float(v), R[a][b]))
             if bad:
-                return "findStopsGlobal's reward matrix differs from the criterion recomputed from the track: (row, column, passed, criterion) = %s" % (bad[:4],)
+                return "findStopsGlobal's reward matrix differs from the documented criterion recomputed from the track: (row, column, passed, criterion) = %s" % (bad[:4],)
             r = oracle(Mx, n - 1, True, out["idx"], 0, "summed reward")
             if r:
                 return r
-            Dx = [[Fraction(0 if (min(a, b), max(a, b)) in none else D[a][b]) for b in range(n)] for a in range(n)]
-            if self.doc_boundary and Dx != Mx:
-                r = oracle(Dx, n - 1, True, out["idx"], 0, "summed DOCUMENTED reward (inclusive boundaries)")
-                if r:
-                    return r
+            r = oracle(Dx, n - 1, True, out["idx"], 0, "summed documented reward")
+            if r:
+                lost = sorted((a, b - 1) for (a, b) in none if Dx[a][b] != 0)
+                return "%s — minCircle returned None for the segment(s) %s, which the documented criterion rewards" % (r, lost)
             return None
         return None
 
     def classify(self, case, impl_out, msg):
-        if case["kind"] == "stops" and msg and "DOCUMENTED" in str(msg):
-            return FINDING_STOPS_BOUNDARY
+        if case["kind"] == "stops" and not case.get("rtk") and msg and "minCircle returned None" in str(msg):
+            return FINDING_MINCIRCLE
         return None
 
     # ---------------------------------------------------------------- shrinking / search
